@@ -111,10 +111,21 @@ theorem step_good {s : State} (hc : Coupled s) (op : Op) (hok : OpOk s op) : Ste
       split
       · rename_i hnts
         obtain ⟨hids, hdeps⟩ := deps_of_ntsOk hnts
-        apply coreStep_good hi (by trivial)
-        intro c' out hstep
-        obtain ⟨hcb, hc'⟩ := submit_coupled h0 hwf' hw hsent hnew hv hids hdeps hstep
-        exact ⟨[], by rw [hcb]; exact GoodR.nil hc'⟩
+        split
+        · -- an empty `TaskSubmit` does not reach the reactor
+          rename_i hemp
+          have hcore : core = [] := by
+            have : nts = [] := by simpa using hemp
+            rw [← hids, this]; rfl
+          subst hcore
+          refine ⟨job_only_coupled h0 hwf' hw (fun x => by rw [hsent]; simp) (fun x _ => by rw [hv x]; simp) ?_, hi⟩
+          intro x hl
+          rw [hv x] at hl
+          simpa using hl
+        · apply coreStep_good hi (by trivial)
+          intro c' out hstep
+          obtain ⟨hcb, hc'⟩ := submit_coupled h0 hwf' hw hsent hnew hv hids hdeps hstep
+          exact ⟨[], by rw [hcb]; exact GoodR.nil hc'⟩
       · trivial
   | newWorker w =>
     simp only [step]
